@@ -28,10 +28,12 @@ mv /tmp/seed-demo-aside-$id "$demo"
 echo "suite with change: $suite"
 run_demo; with=$?
 echo "demo with change: exit $with ($(grep -E 'test result|FAILED|panicked' /tmp/seed-demo-$id.log | head -2 | tr '\n' ' '))"
-git stash -q
+# (worktrees share one stash: use a patch file instead of git stash)
+git diff > /tmp/seed-verify-$id.diff
+git checkout -q -- .
 run_demo; without=$?
 echo "demo without change: exit $without ($(grep -E 'test result' /tmp/seed-demo-$id.log | head -1))"
-git stash pop -q
+git apply /tmp/seed-verify-$id.diff; rm -f /tmp/seed-verify-$id.diff
 ok=0
 echo "$suite" | grep -q "94 passed" && [ $with -ne 0 ] && [ $without -eq 0 ] && ok=1
 echo "CONFIRMED=$ok"
